@@ -708,6 +708,14 @@ func run() int {
 		}
 	}
 
+	if *verbose {
+		for _, name := range order {
+			g := groups[name]
+			if g.Kind != "cover" && (g.TimeS > 3 || strings.Contains(g.Solver, "other-mode") || g.Solver == "escalated") {
+				fmt.Fprintf(os.Stderr, "  slow: %.1fs %s via %s: %s\n", g.TimeS, g.Status, g.Solver, name)
+			}
+		}
+	}
 	// ---- evidence ----
 	wall := time.Since(t0).Seconds()
 	writeEvidence(w, cfg, results, groups, order, violations, knownHit, skipped, nObl, nDis, coverOK, coverBad, seed, wall, tLoad, tGen, tSolve, known)
